@@ -15,7 +15,8 @@ CONSTANTS
     CloseReleasesBlob = TRUE
     CloseFiles = TRUE
     StampOnlyOnSuccess = TRUE
+    BlobReleasedOnCloseError = TRUE
 SPECIFICATION MonSpec
-INVARIANTS HeldLayerServes AllReleasedAndEvictedFreesEverything ClosedMeansGone NoOpenFilesAfterClose FailedResolveLeaksNothing HeldReadsWork BurstSharesOneInstance SampleServes
+INVARIANTS HeldLayerServes AllReleasedAndEvictedFreesEverything UnusedBlobIsGone ClosedMeansGone NoOpenFilesAfterClose FailedResolveLeaksNothing HeldReadsWork BurstSharesOneInstance SampleServes
 PROPERTIES ReadWorks ReturnedIsCached NoDuplicateCreation ResolveAgainWorks CheckNotFooled
 CHECK_DEADLOCK FALSE
